@@ -210,6 +210,13 @@ def case_history(cid, kind, rng, nv=None, length=60, slots=24, reorder=True, qua
                     nsub += 1
                 ops.append(f"SUBST h{d} h{pick()} {rng.randrange(nsub)}")
             live.add(d)
+        elif r < 0.92 and kind == "zbdd":
+            # ZBDD restrict (level-threaded variant that re-inserts don't-care nodes below the cube)
+            d = fresh()
+            pos = rng.randrange(1 << nv)
+            neg = rng.randrange(1 << nv) & ~pos
+            ops.append(f"RESTRICT h{d} h{pick()} {pos} {neg}")
+            live.add(d)
         elif extra_ops:
             ops.append(rng.choice(extra_ops)(rng, nv, pick, fresh, live))
         else:
